@@ -557,7 +557,18 @@ func TestC34(t *testing.T) {
 				// who could have done it: an older timer object under the same id that ended its own life
 				sig, why := "timer-removed-without-cause", ""
 
+				for _, s := range stops {
+					if s.startSeq < rs && (s.endSeq == 0 || s.endSeq > rs) && !s.covers(tm.spec.ID) {
+						sig = "stop-removed-uncovered-id"
+						why = fmt.Sprintf("; %s@%d..%d, which does not cover this id, was running at that moment", s.what, s.startSeq, s.endSeq)
+					}
+				}
+
 				for _, old := range timers {
+					if sig == "stop-removed-uncovered-id" {
+						break
+					}
+
 					if old == tm || old.spec.ID != tm.spec.ID || old.regStartSeq > tm.regStartSeq {
 						continue
 					}
